@@ -79,7 +79,8 @@ where
         // 0. capacity.
         {
             let any_vec_raw = unsafe{any_vec_ptr.any_vec_raw_mut()};
-            any_vec_raw.reserve(new_len);
+            // `len` is `start` now (see `new`), and `reserve` takes additional elements count.
+            any_vec_raw.reserve(new_len - self.start);
         }
 
         // 1. drop elements.
